@@ -21,6 +21,14 @@ NOINL void e_Bundle_rjac(const Btd* t, double* out){ auto J = t->rjac(); out[0]=
 NOINL void e_Bundle_compose(const Bd* X, const Bd* Y, double* out){ Bd Z = X->compose(*Y); out[0]=Z.coeffs()(0); }
 NOINL void e_SE2Tangent_rjac(const SE2Tangentd* t, double* out){ auto J = t->rjac(); out[0]=J(0,0); }
 NOINL void e_SGal3_InnerWeights(double* out){ auto W = SGal3Tangentd::InnerWeights(); out[0]=W(0,0); }
+NOINL void e_SE3_adj(const SE3d* X, double* out){ auto A = X->adj(); out[0]=A(0,0); }
+NOINL void e_SE2_adj(const SE2d* X, double* out){ auto A = X->adj(); out[0]=A(0,0); }
+NOINL void e_SO3_adj(const SO3d* X, double* out){ auto A = X->adj(); out[0]=A(0,0); }
+NOINL void e_SE_2_3_adj(const SE_2_3d* X, double* out){ auto A = X->adj(); out[0]=A(0,0); }
+NOINL void e_SGal3_adj(const SGal3d* X, double* out){ auto A = X->adj(); out[0]=A(0,0); }
+NOINL void e_SE3_compose_J(const SE3d* X, const SE3d* Y, double* out){ SE3d::Jacobian Ja,Jb; SE3d Z = X->compose(*Y,Ja,Jb); out[0]=Z.coeffs()(0)+Ja(0,0)+Jb(0,0); }
+NOINL void e_SE3_rminus_J(const SE3d* X, const SE3d* Y, double* out){ SE3d::Jacobian Ja,Jb; SE3Tangentd t = X->rminus(*Y,Ja,Jb); out[0]=t.coeffs()(0)+Ja(0,0)+Jb(0,0); }
+NOINL void e_SE2_exp_J(const SE2Tangentd* t, double* out){ SE2d::Jacobian J; SE2d X = t->exp(J); out[0]=X.x()+J(0,0); }
 // generator index dispatch (C07): one wrapper per tangent type; irx encodes the callee's CFG over 32-bit bit-vectors
 #define GEN(NAME, T) NOINL void g_##NAME(int i, double* out){ auto G = T::Generator(i); out[0]=G(0,0); }
 GEN(SO2, SO2Tangentd) GEN(SE2, SE2Tangentd) GEN(SO3, SO3Tangentd) GEN(SE3, SE3Tangentd) GEN(SE_2_3, SE_2_3Tangentd) GEN(SGal3, SGal3Tangentd) GEN(R3, R3Tangentd) GEN(Bundle, Btd)
